@@ -12,12 +12,19 @@ granularity of individual back-end calls.
 * A **handle** (`KeyRing` object bound to one ring path) keeps a possibly stale snapshot `snap`
   (`KeyRing.data`) and the transaction log of the operation in flight.
 * An API operation is a *program of back-end calls*: `writeKeyRing` = `Lock; Get; (apply);
-  Put <ring>.keyring.new; Rename; Unlock` and `readKeyRing` = `RLock; Get; RUnlock`.
-* The global state is the back-end map (`cur`, `new` per ring path) and the lock (`writer`,
+  Put <ring>.keyring.new; Rename; Unlock`, `readKeyRing` = `RLock; Get; RUnlock` and
+  `OpenKeyRingRW` = fresh handle object, then `openKeyRing` = `Lock; Get;` (ring there: load it |
+  `ErrNotExist`: `Put <ring>.keyring.new` of the empty ring`; Rename`)`; Unlock` – the existence check
+  and the creation happen under ONE exclusive lock, as coded (`Props.C17.fact_open_cycle`).
+* A ring file may be **missing** (`ex p = false`; its `cur p` is then the empty ring by convention).
+  `Get` of a missing ring is `ErrNotExist`: `writeKeyRing`/`readKeyRing` fail, `openKeyRing` creates.
+* The global state is the back-end map (`cur`, `new`, `ex` per ring path) and the lock (`writer`,
   `readers`). `step s i` lets thread `i` perform its next call if it is enabled (a thread waiting for
   the lock does not move); `run s sched` follows an arbitrary schedule.
 
-Ghost state (`commits`, `done`) records the linearisation order and the outcomes.
+Ghost state (`commits`, `done`) records the linearisation order and the outcomes. `commits` lists the
+successful writing operations at their linearisation points: the atomic `Rename`s, and – with the empty
+transaction list – the `Get` of an `OpenKeyRingRW` that found its ring (it writes nothing).
 -/
 namespace AcraModel.KeystoreSec.Conc
 
@@ -34,6 +41,10 @@ structure Ring where
   keys : List Key
   current : Int
 deriving DecidableEq, Repr
+
+/-- the ring of a fresh handle object (`newKeyRing`: no keys, `Current: asn1.NoKey`) – what
+`OpenKeyRingRW` writes when the ring file does not exist -/
+def emptyRing : Ring := ⟨[], noKey⟩
 
 /-- key states of `asn1.KeyState` -/
 def stPreActive : Nat := 1
@@ -104,7 +115,8 @@ def Ring.nextSeq (r : Ring) : Int :=
 def transitionValid (old new : Nat) : Bool :=
   ((Generated.KeystoreSec.transitions.lookup old).getD []).contains new
 
-/-- operations of `api.MutableKeyRing` (plus a pure re-read and the import overwrite) -/
+/-- operations of `api.MutableKeyRing` (plus a pure re-read, the import overwrite and
+`OpenKeyRingRW`: a fresh handle object on the path, then `openKeyRing`) -/
 inductive Op where
   | addKey (data : Nat)
   | setCurrent (seq : Int)
@@ -112,6 +124,7 @@ inductive Op where
   | destroy (seq : Int)
   | importKeys (keys : List Key) (current : Int)
   | refresh
+  | open
 deriving DecidableEq, Repr
 
 /-- What the handle pushes on its transaction log, computed from its (possibly stale) snapshot
@@ -129,9 +142,13 @@ def prepare (snap : Ring) : Op → Option (List Tx)
     | some k => if transitionValid k.state stDestroyed then some [.destroyData s, .changeState s k.state stDestroyed] else none
   | .importKeys ks c => some [.setKeys ks c]
   | .refresh => some []
+  | .open => some []
 
+/-- `renamed`: past the linearisation point of a successful write (the `Rename`; for an
+`OpenKeyRingRW` that found its ring, the `Get`), about to `Unlock`. `rfailed`: a reader whose `Get`
+returned `ErrNotExist`, about to `RUnlock`. -/
 inductive PC where
-  | idle | locked | got | put | renamed | failed | rlocked | rgot
+  | idle | locked | got | put | renamed | failed | rlocked | rgot | rfailed
 deriving DecidableEq, Repr
 
 structure Handle where
@@ -155,8 +172,10 @@ structure St where
   writer : Option Nat
   readers : List Nat
   h : Nat → Handle
-  /-- ghost: renames in the order they happened -/
+  /-- ghost: linearisation points of the successful writes, in the order they happened -/
   commits : List Commit
+  /-- does `<ring>.keyring` exist? (`cur p` of a missing ring is `emptyRing` by convention) -/
+  ex : Nat → Bool := fun _ => true
 
 def upd {α} (f : Nat → α) (i : Nat) (v : α) : Nat → α := fun j => if j = i then v else f j
 
@@ -167,6 +186,7 @@ theorem upd_other {α} (f : Nat → α) (i j : Nat) (v : α) (h : j ≠ i) : upd
 inductive Call where
   | lock | unlock | rlock | runlock
   | get (path : Nat) (val : Ring)
+  | getMissing (path : Nat)
   | put (path : Nat) (val : Ring) (ok : Bool)
   | rename (path : Nat)
   | none
@@ -198,11 +218,24 @@ def stepCall (s : St) (i : Nat) : St × Call :=
             ({ s with writer := some i, h := upd s.h i { hd with pc := .locked, txs := txs } }, .lock)
           else (s, .none)
   | .locked =>
-    -- pullRingUpdates, then applyPendingTX
-    let r := s.cur hd.path
-    match applyAll hd.txs r with
-    | none => ({ s with h := upd s.h i { hd with pc := .failed, snap := r } }, .get hd.path r)
-    | some _ => ({ s with h := upd s.h i { hd with pc := .got, snap := r } }, .get hd.path r)
+    if s.ex hd.path then
+      let r := s.cur hd.path
+      if hd.todo.head? = some .open then
+        -- openKeyRing, the ring is there: pullRingUpdates, nothing to push
+        ({ s with commits := s.commits ++ [⟨i, hd.path, []⟩],
+                  h := upd s.h i { hd with pc := .renamed, snap := r, txs := [] } }, .get hd.path r)
+      else
+        -- writeKeyRing: pullRingUpdates, then applyPendingTX
+        match applyAll hd.txs r with
+        | none => ({ s with h := upd s.h i { hd with pc := .failed, snap := r } }, .get hd.path r)
+        | some _ => ({ s with h := upd s.h i { hd with pc := .got, snap := r } }, .get hd.path r)
+    else
+      if hd.todo.head? = some .open then
+        -- openKeyRing, `ErrNotExist`: push the fresh handle's empty ring (still under the same lock)
+        ({ s with h := upd s.h i { hd with pc := .got, snap := emptyRing, txs := [] } }, .getMissing hd.path)
+      else
+        -- writeKeyRing: pullRingUpdates fails, the snapshot stays
+        ({ s with h := upd s.h i { hd with pc := .failed } }, .getMissing hd.path)
   | .got =>
     match applyAll hd.txs hd.snap with
     | none => ({ s with h := upd s.h i { hd with pc := .failed } }, .none)   -- unreachable (checked at `locked`)
@@ -216,11 +249,17 @@ def stepCall (s : St) (i : Nat) : St × Call :=
     | some r' =>
       ({ s with cur := upd s.cur hd.path r', new := upd s.new hd.path none,
                 commits := s.commits ++ [⟨i, hd.path, hd.txs⟩],
+                ex := upd s.ex hd.path true,
                 h := upd s.h i { hd with pc := .renamed } }, .rename hd.path)
   | .renamed => ({ s with writer := none, h := upd s.h i (finish hd (some hd.txs)) }, .unlock)
   | .failed => ({ s with writer := none, h := upd s.h i (finish hd none) }, .unlock)
-  | .rlocked => ({ s with h := upd s.h i { hd with pc := .rgot, snap := s.cur hd.path } }, .get hd.path (s.cur hd.path))
+  | .rlocked =>
+    if s.ex hd.path then
+      ({ s with h := upd s.h i { hd with pc := .rgot, snap := s.cur hd.path } }, .get hd.path (s.cur hd.path))
+    else
+      ({ s with h := upd s.h i { hd with pc := .rfailed } }, .getMissing hd.path)
   | .rgot => ({ s with readers := s.readers.erase i, h := upd s.h i (finish hd (some [])) }, .runlock)
+  | .rfailed => ({ s with readers := s.readers.erase i, h := upd s.h i (finish hd none) }, .runlock)
 
 def step (s : St) (i : Nat) : St := (stepCall s i).1
 
